@@ -29,6 +29,19 @@ class CallGraph:
                     self.impl_methods.setdefault(it["trait_item"], []).append(it["path"])
                 if st and st.get("k") == "adt" and tr:
                     self.methods_of_adt.setdefault(st["path"], []).append((tr, it["path"]))
+        # local ADTs implementing a given local trait; assoc type values of local traits
+        self.adts_of_trait = {}
+        self.alias_values = {}
+        for im in F.impls:
+            tr = im.get("trait")
+            st = F.ty(im["self_ty"])
+            if tr and st and st.get("k") == "adt":
+                self.adts_of_trait.setdefault(tr, set()).add(st["path"])
+            for it in im["items"]:
+                if it["kind"] == "type" and it.get("trait_item") and "ty" in it:
+                    t = F.ty(it["ty"])
+                    if t and t.get("k") == "adt":
+                        self.alias_values.setdefault(it["trait_item"], set()).add(t["path"])
         self.edges = {}  # path -> set(local callee paths)
         self.ext = {}  # path -> set((ext path, krate))
         self.unknown = {}  # path -> set(description) for indirect / foreign-trait-on-param calls
@@ -90,18 +103,36 @@ class CallGraph:
                             self.unknown[src].add("local callee without body %s" % r["path"])
                     else:
                         self.ext[src].add((r["path"], r["krate"]))
-                        self._callbacks(src, r)
+                        self._callbacks(src, r, b)
                     if r.get("kind") == "virtual":
                         self.unknown[src].add("virtual call %s" % r["path"])
 
-    def _callbacks(self, src, res):
+    def _callbacks(self, src, res, body=None):
         """External generic code instantiated with local types may call their trait impls."""
         F = self.F
+        self._cur_bounds = {}
+        if body is not None:
+            for g in body.d.get("generics", []):
+                if g.get("k") == "ty":
+                    self._cur_bounds[g["n"]] = g.get("bounds", [])
         for a in res.get("args", []):
             if a.get("k") != "ty":
                 continue
             t = F.ty(a["ty"])
             self._type_callbacks(src, t, 0)
+
+    def _candidates(self, t):
+        """Local ADT paths a type parameter / projection may stand for (None = any)."""
+        if t.get("k") == "param":
+            bounds = [b for b in getattr(self, "_cur_bounds", {}).get(t["n"], [])
+                      if not (b.startswith("core::marker::") and b != "core::marker::Copy")]
+            if not bounds:
+                return None
+            sets = [self.adts_of_trait.get(b, set()) for b in bounds]
+            return set.intersection(*sets)
+        if t.get("k") == "alias":
+            return self.alias_values.get(t["path"])
+        return None
 
     def _type_callbacks(self, src, t, depth):
         F = self.F
@@ -117,7 +148,10 @@ class CallGraph:
                 if a.get("k") == "ty":
                     self._type_callbacks(src, F.ty(a["ty"]), depth + 1)
         elif k in ("param", "alias"):
+            cands = self._candidates(t)
             for adt, ms in self.methods_of_adt.items():
+                if cands is not None and adt not in cands:
+                    continue
                 for tr, m in ms:
                     if tr in CALLBACK_TRAITS:
                         self._add(src, m)
@@ -147,6 +181,7 @@ class CallGraph:
             self._add(src, c["path"])
         elif c.get("k") == "zst":
             t = self.F.ty(c.get("ty"))
+            self._cur_bounds = {}
             self._type_callbacks(src, t, 0)
 
     def _scan_values(self, src, s):
